@@ -358,7 +358,7 @@ def _digest_compare(out, prop, base_label, what):
 
 def _xcfg_variants(out):
     if out.tier == "quick":
-        return ["prod", "prod+W32", "prod+UNAL0", "prod+NEUTRAL", "prod+W32+UNAL0", "prod+W32+NEUTRAL", "prod+NOSIMD", "prod+NOAVX2", "clang", "prod+O0", "clang+W32+UNAL0+NOSIMD", "clang+O1+NEUTRAL", "prod+Os", "clang+Os+W32", "prod+NATIVE", "clang+NATIVE+O2", "prod+Og+NATIVE+W32", "prod+NDEBUG+UCHAR", "clang+O1+NDEBUG+UCHAR+W32", "prod+LTO"]
+        return ["prod", "prod+W32", "prod+UNAL0", "prod+NEUTRAL", "prod+W32+UNAL0", "prod+W32+NEUTRAL", "prod+NOSIMD", "prod+NOAVX2", "clang", "prod+O0", "clang+W32+UNAL0+NOSIMD", "clang+O1+NEUTRAL", "prod+Os", "clang+Os+W32", "prod+NATIVE", "clang+NATIVE+O2", "prod+Og+NATIVE+W32", "prod+NDEBUG+UCHAR", "clang+O1+NDEBUG+UCHAR+W32", "prod+LTO", "make"]
     vs = []
     for cc in ("prod", "clang"):
         for o in ("O0", "O1", "O2", "O3"):
@@ -387,7 +387,7 @@ def _xcfg_variants(out):
 def c12(out):
     import concurrent.futures as cf
     variants = _xcfg_variants(out)
-    out.rule = ("the working tree is built in %d configurations (word size x unaligned access x {SIMD all / no AVX2 / none / byte-order-neutral scalar} x gcc/clang x -O0..-O3, -Os, -Og, with and without -march=native on every file, -DNDEBUG, -funsigned-char; -flto; quick = covering subset of 20) "
+    out.rule = ("the working tree is built in %d configurations (word size x unaligned access x {SIMD all / no AVX2 / none / byte-order-neutral scalar} x gcc/clang x -O0..-O3, -Os, -Og, with and without -march=native on every file, -DNDEBUG, -funsigned-char; -flto, and the static library as the repository's own Makefile builds it; quick = covering subset of 21) "
                 "and each build runs the same seeded workload: single-block SKINNY (all variants, in-between key sizes, both directions), MANTIS (rounds, modes, entry points incl. double swap), tweak histories, "
                 "CTR histories (carries, splits, mid-stream rekey, invalid calls) and parallel histories on every back end the build contains; inside each build results are compared with the reference models and across "
                 "back ends; per-chunk digests (32 cases) of all outputs and return values are compared with the shipped configuration. distinct = distinct workload cases by output digest (each executed in every build)." % len(variants))
@@ -462,7 +462,7 @@ def c13(out):
     if out.tier == "thorough":
         builds += [("clang", 1, 1, 3600), ("prod+O0", 1, 1, 3600), ("prod+NOAVX2", 1, 0, 1800), ("prod+NOSIMD", 0, 0, 1800), ("clang+O1", 1, 1, 1800), ("prod+O1", 1, 1, 1800)]
     else:
-        builds += [("prod+O0", 1, 1, 780), ("clang", 1, 1, 780), ("prod+NOSIMD", 0, 0, 390)]
+        builds += [("prod+O0", 1, 1, 780), ("clang", 1, 1, 780), ("prod+NOSIMD", 0, 0, 390), ("make", 1, 1, 390)]      # "make": libskinny.a built by src/Makefile itself
     for vname, h128, h256, cases in builds:
         exe = build_driver("drv_cpuid", ["drv_cpuid.c"] + HIST, vname)
         run_sharded(out, exe, ["--has128", str(h128), "--has256", str(h256)], vname, cases)
